@@ -178,6 +178,10 @@ FAULTS = [
     ("arity", ["def f(p) p", "def a = 1", "f(a, 2)", "a"], 2, "rt", {}),
     ("index", ["def l = [1]", "def a = 1", "l[5]", "a"], 2, "rt", {}),
     ("not-boolean", ["def a = 1", "if a then 2", "a"], 1, "rt", {}),
+    # unary operators on an operand of the wrong kind
+    ("not-operand", ["def a = [1]", "def b = not a [0]", "a"], 1, "rt", {}),
+    ("minus-operand", ["def a = ['x']", "def b = - a [0]", "a"], 1, "rt",
+     {}),
     ("deep", ["def f(x) error 'deep'", "def g(x) f(x)", "def h(x) g(x)",
               "h(1)"], 0, "rt", {"stack": [("f", 1), ("g", 2), ("h", 3)]}),
     # a loop exit that escapes from a function body is reported where the
@@ -283,6 +287,7 @@ POS_RE = re.compile(r"(\S+):(\d+):(-?\d+)$")
 POSTOK = {"chain-add": 6, "chain-mul": 6, "nested-call": 6, "member": 4,
           "second-arg": 6, "undefined-name": 3, "operator-type": 5, "native-type": 1,
           "explicit-error": 0, "arity": 1, "index": 1, "not-boolean": 0,
+          "not-operand": 3, "minus-operand": 3,
           "deep": 5, "stray-break": 11, "stray-continue": 11,
           "pipeline": 2, "pipeline-undefined": 2, "pipeline-second": 6,
           "top-break": 0, "top-continue": 5,
@@ -298,6 +303,7 @@ STARTTOK = {"chain-add": 3, "chain-mul": 3, "nested-call": 5, "member": 3,
             "second-arg": 6, "undefined-name": 3, "operator-type": 3,
             "native-type": 0, "explicit-error": 0, "arity": 0, "index": 0,
             "not-boolean": 1, "deep": 5, "pipeline": 0,
+            "not-operand": 3, "minus-operand": 3,
             "pipeline-undefined": 0, "pipeline-second": 0, "stray-break": 11,
             "top-break": 0, "top-continue": 5,
             "stray-continue": 11, "stray-paren": 3,
